@@ -65,6 +65,8 @@ def simplify_specifiers(spec):
             raise err()
         if ( gt.version == lt.version and gt.operator == '>=' and
              lt.operator == '<='):
+            if ne:
+                raise err()
             return SpecifierSet('=={}'.format(gt.version))
 
     return SpecifierSet(
